@@ -1,10 +1,16 @@
 /-
 C20 – A session timer never fires early, nor after it was stopped.
 
-Theorems about `Rc/Model/Timer.lean` (the timer bookkeeping of src/bgp/fsm/timers.rs after fix
-F17, observed after each operation has settled). They hold for every operation history – no
-depth bound – that satisfies the property's precondition (`run … = some …`: no tick falls due
-while the previous one is still un-awaited) and for every interval > 0.
+Theorems about `Rc/Model/Timer.lean` (src/bgp/fsm/timers.rs after fix F17: the `Timer` struct and the
+interval task it spawns, small-step, observed after each operation has settled).
+
+* REFINEMENT (`timer_refines_spec`): for EVERY operation history – inside the property's precondition or
+  not, every interval, also 0 – what the awaits and probes of the modelled timer observe is what the
+  abstract specification `Rc.Timer.spec` says (a stream of due times handed out in order, never early,
+  nothing lost or merged; stop / start discard what is outstanding; reset re-arms one interval from now).
+* SAFETY (`no_early_tick`, `no_tick_after_stop`): corollaries, under the precondition.
+* LIVENESS under the controlled clock (`tick_exactly_at_deadline`, `kth_tick_at_k_intervals`).
+* the corner cases `reset` of a stopped timer, `start` of a running one, `stop` twice, interval 0.
 -/
 import Rc.Model.Timer
 
@@ -14,172 +20,234 @@ open Rc Rc.Timer
 /-- "the later of the last start and the last reset" (0 when neither happened yet) -/
 def armedAt (lastStart lastReset : Option Nat) : Nat := max (lastStart.getD 0) (lastReset.getD 0)
 
-/-- The invariant of the repaired timer. -/
-private structure Inv (s : State) : Prop where
-  ipos : 0 < s.interval
-  ls : s.lastStart.getD 0 ≤ s.now
-  lr : s.lastReset.getD 0 ≤ s.now
-  task : ∀ n, s.task = some n → s.now < n ∧ armedAt s.lastStart s.lastReset + s.interval ≤ n
-  queue : ∀ v, s.queue = some v → armedAt s.lastStart s.lastReset + s.interval ≤ v ∧ v ≤ s.now
-  stopped : s.stopped = true ↔ s.task = none
-  qtask : s.task = none → s.queue = none
-  started : ∀ n, s.task = some n → s.everStarted = true ∧ ∃ t, s.lastStart = some t
+/-! ### the representation of a specification state by the timer and its task -/
 
-/-- what the property demands of one observation, given the ghost variables before the await -/
-private def GoodObs (s : State) : Obs → Prop
-  | .tick v t => armedAt s.lastStart s.lastReset + s.interval ≤ v ∧ v ≤ t ∧ s.stopped = false ∧
-      ∃ ts, s.lastStart = some ts
-  | .timeout _ => True
+/-- the interval task, as a function of the specification state: it waits for the first tick that is not
+yet due, or is blocked sending the second-oldest outstanding tick -/
+def shapeT (a : Spec) : Task :=
+  match a.due with
+  | none => .dead
+  | some t =>
+    match a.stale with
+    | some _ => if t ≤ a.now then .sending t (t + a.i) else .waiting t
+    | none =>
+      if a.now < t then .waiting t
+      else if a.now < t + a.i then .waiting (t + a.i)
+      else .sending (t + a.i) (t + a.i + a.i)
 
-private theorem inv_init (i : Nat) (h : 0 < i) : Inv (init i) := by
-  constructor <;> simp [init]
+/-- the capacity-1 tick channel holds the oldest outstanding tick -/
+def shapeQ (a : Spec) : Option Nat :=
+  match a.due with
+  | none => none
+  | some t =>
+    match a.stale with
+    | some v => some v
+    | none => if a.now < t then none else some t
+
+/-- well-formed specification states: a running timer has a positive interval (`interval(0)` kills the
+task), a stopped one has nothing left over -/
+structure SInv (a : Spec) : Prop where
+  pos : ∀ t, a.due = some t → 0 < a.i
+  stale : a.due = none → a.stale = none
+
+/-- the model state that represents a specification state (`es` = `everStarted`) -/
+def rep (a : Spec) (es : Bool) : State :=
+  { interval := a.i, now := a.now, task := shapeT a, queue := shapeQ a, resetPending := false,
+    everStarted := es, lastStart := a.lastStart, lastReset := a.lastReset, stopped := a.stopped }
+
+/-- `everStarted` after an operation -/
+def esAfter (es : Bool) : Op → Bool
+  | .start => true
+  | .advThen _ .start => true
+  | .burst2 c1 c2 => es || c1 == .start || c2 == .start
+  | .burst3 c1 c2 c3 => es || c1 == .start || c2 == .start || c3 == .start
+  | _ => es
+
+local macro "tmr" : tactic => `(tactic|
+  (simp [rep, shapeT, shapeQ, stepT, Spec.step, Spec.call, Spec.calls, Spec.await, Spec.out2, call, callStart, callStop,
+     callReset, Timer.await, clock, settle, pollLoop, esAfter, alive, breaks, breaksAt, Spec.breaks,
+     Spec.breaksAt, *] <;> grind))
+
+local macro "tmr_ops" op:ident : tactic => `(tactic|
+  (cases $op:ident with
+   | advThen d c => cases c <;> tmr
+   | burst2 c1 c2 => cases c1 <;> cases c2 <;> tmr
+   | burst3 c1 c2 c3 => cases c1 <;> cases c2 <;> cases c3 <;> tmr
+   | _ => tmr))
+
+/-- the six settled forms of the timer, one tactic per form -/
+local macro "tmr_forms" a:ident op:ident : tactic => `(tactic|
+  (obtain ⟨p1, p2⟩ := ‹SInv $a›
+   rcases $a:ident with ⟨ai, anow, adue, astale, als, alr, ast⟩
+   simp only at p1 p2
+   cases adue with
+   | none =>
+     have := p2 rfl; subst this
+     tmr_ops $op
+   | some t =>
+     have hp := p1 t rfl
+     have hne : ai ≠ 0 := by omega
+     cases astale with
+     | some v =>
+       by_cases hc : t ≤ anow
+       · tmr_ops $op
+       · tmr_ops $op
+     | none =>
+       by_cases hc : anow < t
+       · tmr_ops $op
+       · by_cases hc2 : anow < t + ai
+         · tmr_ops $op
+         · tmr_ops $op))
+
+/-- one operation of the timer and its task is one operation of the specification: state -/
+private theorem sim_state (a : Spec) (es : Bool) (op : Op) (hI : SInv a) (he : ∀ t, a.due = some t → es = true) :
+    (stepT true (rep a es) op).1 = rep (a.step op).1 (esAfter es op) := by
+  have he' : a.due.isSome = true → es = true := by
+    intro h; cases hd : a.due with
+    | none => simp [hd] at h
+    | some t => exact he t hd
+  clear he
+  tmr_forms a op
+
+/-- … observation -/
+private theorem sim_obs (a : Spec) (es : Bool) (op : Op) (hI : SInv a) :
+    (stepT true (rep a es) op).2 = (a.step op).2 := by
+  tmr_forms a op
+
+/-- … the precondition -/
+private theorem sim_breaks (a : Spec) (es : Bool) (op : Op) (hI : SInv a) :
+    breaks (rep a es) op = a.breaks op := by
+  tmr_forms a op
+
+private theorem sinv_step (a : Spec) (op : Op) (hI : SInv a) : SInv (a.step op).1 := by
+  obtain ⟨p1, p2⟩ := hI
+  rcases a with ⟨ai, anow, adue, astale, als, alr, ast⟩
+  simp only at p1 p2
+  constructor <;>
+  (cases op with
+   | advThen d c =>
+     cases c <;> cases adue <;> cases astale <;>
+     simp_all [Spec.step, Spec.call, Spec.out2] <;> grind
+   | burst2 c1 c2 =>
+     cases c1 <;> cases c2 <;> cases adue <;> cases astale <;>
+     simp_all [Spec.step, Spec.call, Spec.calls, Spec.out2] <;> grind
+   | burst3 c1 c2 c3 =>
+     cases c1 <;> cases c2 <;> cases c3 <;> cases adue <;> cases astale <;>
+     simp_all [Spec.step, Spec.call, Spec.calls, Spec.out2] <;> grind
+   | _ =>
+     cases adue <;> cases astale <;>
+     simp_all [Spec.step, Spec.call, Spec.await, Spec.out2] <;> grind)
+
+private theorem es_step (a : Spec) (es : Bool) (op : Op) (hI : SInv a) (he : ∀ t, a.due = some t → es = true) :
+    ∀ t, (a.step op).1.due = some t → esAfter es op = true := by
+  obtain ⟨p1, p2⟩ := hI
+  rcases a with ⟨ai, anow, adue, astale, als, alr, ast⟩
+  simp only at p1 p2 he
+  cases op with
+  | advThen d c =>
+    cases c <;> cases adue <;> cases astale <;>
+    simp_all [Spec.step, Spec.call, Spec.out2, esAfter] <;> grind
+  | burst2 c1 c2 =>
+    cases c1 <;> cases c2 <;> cases adue <;> cases astale <;>
+    simp_all [Spec.step, Spec.call, Spec.calls, Spec.out2, esAfter] <;> grind
+  | burst3 c1 c2 c3 =>
+    cases c1 <;> cases c2 <;> cases c3 <;> cases adue <;> cases astale <;>
+    simp_all [Spec.step, Spec.call, Spec.calls, Spec.out2, esAfter] <;> grind
+  | _ =>
+    cases adue <;> cases astale <;>
+    simp_all [Spec.step, Spec.call, Spec.await, Spec.out2, esAfter] <;> grind
+
+
+private theorem eventsOf_rep (a : Spec) (es : Bool) (o : Option Obs) : eventsOf (rep a es) o = a.eventsOf o := by
+  cases o <;> rfl
+
+/-- histories: the total run of the model from a represented state is the run of the specification -/
+private theorem runT_rep : ∀ (ops : List Op) (a : Spec) (es : Bool), SInv a → (∀ t, a.due = some t → es = true) →
+    (runT true (rep a es) ops).2 = (a.run ops).2 ∧
+    ∃ es', (runT true (rep a es) ops).1 = rep (a.run ops).1 es' := by
+  intro ops
+  induction ops with
+  | nil => intro a es _ _; exact ⟨rfl, es, rfl⟩
+  | cons op ops ih =>
+    intro a es hI he
+    have h1 := sim_state a es op hI he
+    have h2 := sim_obs a es op hI
+    have ih' := ih (a.step op).1 (esAfter es op) (sinv_step a op hI) (es_step a es op hI he)
+    simp only [runT, Spec.run, h1, h2, eventsOf_rep]
+    exact ⟨by rw [ih'.1], ih'.2⟩
+
+private theorem sinv_init (i : Nat) : SInv (Spec.init i) := by
+  constructor <;> simp [Spec.init]
+
+private theorem rep_init (i : Nat) : rep (Spec.init i) false = init i := rfl
+
+/-! ### the refinement theorem -/
+
+/-- **Refinement.** For every interval `i` (0 included) and EVERY operation history over
+{start, reset, stop, advance, await, advance-then-call-before-the-task-ran, probe} – whether or not it
+keeps the property's precondition – every await and probe of the modelled `Timer` (struct + spawned
+interval task + both channels) observes exactly what the abstract specification `spec` prescribes, and
+with the same ghost variables (time of the last start / reset, stopped flag). -/
+theorem timer_refines_spec (i : Nat) (ops : List Op) :
+    (runT true (init i) ops).2 = ((Spec.init i).run ops).2 ∧
+    (runT true (init i) ops).2.map (·.obs) = spec i ops := by
+  have h := (runT_rep ops (Spec.init i) false (sinv_init i) (by simp [Spec.init])).1
+  rw [rep_init] at h
+  exact ⟨h, by rw [h]; rfl⟩
+
+/-- … and the state the timer is left in is the representation of the specification's state. -/
+theorem timer_state_refines_spec (i : Nat) (ops : List Op) :
+    ∃ es, (runT true (init i) ops).1 = rep ((Spec.init i).run ops).1 es := by
+  have h := (runT_rep ops (Spec.init i) false (sinv_init i) (by simp [Spec.init])).2
+  rw [rep_init] at h
   exact h
 
-private theorem inv_start (s : State) (h : Inv s) : Inv (start true s) := by
-  have := h.ipos; have := h.lr
-  constructor <;> simp [start, armedAt] <;> omega
+example : spec 10000 [.start, .advance 30000, .probe, .await 0, .reset, .await 1, .await 9998, .await 1] =
+    [.probe true true 1, .tick 10000 30000, .tick 30000 30000, .timeout 39998, .timeout 39999] := by decide
 
-private theorem inv_stop (s : State) (h : Inv s) : Inv (stop true s) := by
-  have := h.ipos; have := h.lr; have := h.ls
-  constructor <;> simp [stop] <;> omega
+/-! ### the precondition -/
 
-private theorem inv_reset (s : State) (h : Inv s) : Inv (reset true s) := by
-  have hi := h.ipos; have hls := h.ls
-  unfold reset
-  cases he : s.everStarted with
-  | true =>
-    simp only [if_true]
-    cases ht : s.task with
-    | none =>
-      have hst := h.stopped
-      constructor <;> simp_all
-    | some m =>
-      have hst := h.stopped
-      have hs := h.started m ht
-      constructor <;> simp_all [armedAt] <;> omega
-  | false =>
-    simp only [Bool.false_eq_true, if_false]
-    have hnt : s.task = none := by
-      cases ht : s.task with
-      | none => rfl
-      | some n => have := (h.started n ht).1; simp_all
-    have hq := h.qtask hnt
-    have hst := h.stopped
-    constructor <;> simp_all
+/-- the history keeps the property's precondition (decided on the specification) -/
+def keeps : Spec → List Op → Bool
+  | _, [] => true
+  | a, op :: ops => !a.breaks op && keeps (a.step op).1 ops
 
-private theorem stopped_false {s : State} (h : Inv s) {n : Nat} (ht : s.task = some n) :
-    s.stopped = false := by
-  cases hb : s.stopped with
-  | false => rfl
-  | true => have := h.stopped.mp hb; simp [ht] at this
+/-- a history that `run` accepts keeps the precondition, and `run` is the total run -/
+private theorem run_rep : ∀ (ops : List Op) (a : Spec) (es : Bool) (s : State) (evs : List Event), SInv a →
+    (∀ t, a.due = some t → es = true) → run true (rep a es) ops = some (s, evs) →
+    keeps a ops = true ∧ evs = (a.run ops).2 := by
+  intro ops
+  induction ops with
+  | nil => intro a es s evs _ _ h; simp [run] at h; simp [keeps, Spec.run, h.2]
+  | cons op ops ih =>
+    intro a es s evs hI he h
+    have hb := sim_breaks a es op hI
+    unfold run step at h
+    cases hbr : breaks (rep a es) op with
+    | true => simp [hbr] at h
+    | false =>
+      simp only [hbr] at h
+      have h1 := sim_state a es op hI he
+      have h2 := sim_obs a es op hI
+      cases hr : run true (stepT true (rep a es) op).1 ops with
+      | none => simp [hr] at h
+      | some q =>
+        obtain ⟨s2, evs2⟩ := q
+        simp [hr] at h
+        rw [h1] at hr
+        have ih' := ih (a.step op).1 (esAfter es op) s2 evs2 (sinv_step a op hI) (es_step a es op hI he) hr
+        refine ⟨?_, ?_⟩
+        · simp [keeps, ← hb, hbr, ih'.1]
+        · rw [← h.2, ih'.2, h2, eventsOf_rep]; simp [Spec.run]
 
-/-- the clock moves to `t` without reaching the task's deadline -/
-private theorem inv_wait (s : State) (t : Nat) (h : Inv s) (hnow : s.now ≤ t)
-    (hnext : ∀ n, s.task = some n → t < n) : Inv { s with now := t } := by
-  have hi := h.ipos; have hls := h.ls; have hlr := h.lr
-  refine ⟨hi, by simp; omega, by simp; omega, ?_, ?_, ?_, ?_, ?_⟩
-  · intro n hn; simp at hn; have := h.task n hn; have := hnext n hn; simp; omega
-  · intro v hv; simp at hv; have := h.queue v hv; simp; omega
-  · simpa using h.stopped
-  · simpa using h.qtask
-  · intro n hn; simpa using h.started n hn
-
-/-- the task's deadline is reached: the clock is there, the tick is queued, the interval re-arms -/
-private theorem inv_fire (s : State) (next t : Nat) (h : Inv s) (ht : s.task = some next)
-    (_hq : s.queue = none) (hle : next ≤ t) (hlt : t < next + s.interval) :
-    Inv { s with now := t, queue := some next, task := some (next + s.interval) } := by
-  have hi := h.ipos; have hls := h.ls; have hlr := h.lr
-  have hT := h.task next ht
-  have hS := h.started next ht
-  have hsf := stopped_false h ht
-  refine ⟨hi, by simp; omega, by simp; omega, ?_, ?_, ?_, ?_, ?_⟩
-  · intro n hn; simp at hn; subst hn; simp; omega
-  · intro v hv; simp at hv; subst hv; simp; omega
-  · simp [hsf]
-  · simp
-  · intro n hn; simpa using hS
-
-private theorem inv_dequeue (s : State) (h : Inv s) : Inv { s with queue := none } := by
-  refine ⟨h.ipos, h.ls, h.lr, h.task, by simp, h.stopped, by simp, h.started⟩
-
-private theorem inv_advance (s s' : State) (d : Nat) (h : Inv s) (hs : advance s d = some s') : Inv s' := by
-  unfold advance at hs
-  cases ht : s.task with
-  | none =>
-    simp [ht] at hs; subst hs
-    have := inv_wait s (s.now + d) h (by omega) (by intro n hn; simp [ht] at hn)
-    simpa [ht] using this
-  | some next =>
-    simp only [ht] at hs
-    split at hs
-    · simp at hs; subst hs
-      have := inv_wait s (s.now + d) h (by omega) (by intro n hn; simp [ht] at hn; omega)
-      simpa [ht] using this
-    · split at hs
-      · simp at hs
-      · rename_i hq
-        split at hs
-        · simp at hs
-        · simp at hs; subst hs
-          have hq' : s.queue = none := by cases hqq : s.queue <;> simp_all
-          exact inv_fire s next (s.now + d) h ht hq' (by omega) (by omega)
-
-private theorem good_queued (s : State) (v : Nat) (h : Inv s) (hq : s.queue = some v) :
-    GoodObs s (.tick v s.now) := by
-  have hQ := h.queue v hq
-  have hnt : s.task ≠ none := fun hn => by have := h.qtask hn; simp_all
-  cases ht : s.task with
-  | none => exact absurd ht hnt
-  | some n => exact ⟨hQ.1, hQ.2, stopped_false h ht, (h.started n ht).2⟩
-
-private theorem inv_await (s : State) (d : Nat) (h : Inv s) :
-    Inv (await s d).1 ∧ GoodObs s (await s d).2 := by
-  have hi := h.ipos
-  unfold await
-  cases hq : s.queue with
-  | some v =>
-    simp only
-    have := inv_dequeue s h
-    exact ⟨this, good_queued s v h hq⟩
-  | none =>
-    cases ht : s.task with
-    | none =>
-      simp only
-      have := inv_wait s (s.now + d) h (by omega) (by intro n hn; simp [ht] at hn)
-      exact ⟨by simpa [ht, hq] using this, by simp [GoodObs]⟩
-    | some next =>
-      have hT := h.task next ht
-      simp only
-      by_cases h1 : next < s.now + d
-      · -- the clock auto-advances to the deadline, the task sends, tick() receives
-        simp only [h1, if_true]
-        have hf := inv_fire s next next h ht hq (Nat.le_refl _) (by omega)
-        have hd := inv_dequeue _ hf
-        refine ⟨by simpa [hq] using hd, ?_⟩
-        exact ⟨hT.2, Nat.le_refl _, stopped_false h ht, (h.started next ht).2⟩
-      · by_cases h2 : next = s.now + d
-        · simp only [h2, if_true]
-          have hf := inv_fire s next next h ht hq (Nat.le_refl _) (by omega)
-          exact ⟨by simpa [h2] using hf, by simp [GoodObs]⟩
-        · simp only [h1, h2, if_false]
-          have := inv_wait s (s.now + d) h (by omega) (by intro n hn; simp [ht] at hn; omega)
-          exact ⟨by simpa [ht, hq] using this, by simp [GoodObs]⟩
-
-private theorem inv_step (s s' : State) (op : Op) (o : Option Obs) (h : Inv s)
-    (hs : step true s op = some (s', o)) : Inv s' ∧ ∀ ob, o = some ob → GoodObs s ob := by
-  cases op with
-  | start => simp [step] at hs; obtain ⟨rfl, rfl⟩ := hs; exact ⟨inv_start s h, by simp⟩
-  | stop => simp [step] at hs; obtain ⟨rfl, rfl⟩ := hs; exact ⟨inv_stop s h, by simp⟩
-  | reset => simp [step] at hs; obtain ⟨rfl, rfl⟩ := hs; exact ⟨inv_reset s h, by simp⟩
-  | advance d =>
-    simp [step] at hs
-    obtain ⟨a, ha, rfl, rfl⟩ := hs
-    exact ⟨inv_advance s a d h ha, by simp⟩
-  | await d =>
-    simp [step] at hs
-    obtain ⟨rfl, rfl⟩ := hs
-    have := inv_await s d h
-    exact ⟨this.1, by intro ob hob; simp at hob; subst hob; exact this.2⟩
+/-- the invariant of the specification inside the precondition: nothing stale, at most one tick outstanding -/
+private structure PInv (a : Spec) : Prop where
+  ipos : 0 < a.i
+  nostale : a.stale = none
+  ls : a.lastStart.getD 0 ≤ a.now
+  lr : a.lastReset.getD 0 ≤ a.now
+  due : ∀ t, a.due = some t → armedAt a.lastStart a.lastReset + a.i ≤ t ∧ a.now < t + a.i ∧
+          a.stopped = false ∧ ∃ ts, a.lastStart = some ts
 
 /-- what the property demands of a recorded event -/
 private def GoodEvent (e : Event) : Prop :=
@@ -187,117 +255,126 @@ private def GoodEvent (e : Event) : Prop :=
     armedAt e.lastStart e.lastReset + e.interval ≤ v ∧ v ≤ t ∧ e.stopped = false ∧
       ∃ ts, e.lastStart = some ts
 
-private theorem run_good : ∀ (ops : List Op) (s s' : State) (evs : List Event), Inv s →
-    run true s ops = some (s', evs) → ∀ e ∈ evs, GoodEvent e := by
+/-- a settled call keeps the invariant (inside the precondition at most one tick is outstanding, so a `reset`
+leaves nothing stale) … -/
+private theorem pinv_call (a : Spec) (c : Call) (h : PInv a) : PInv (a.call 0 c) := by
+  obtain ⟨q1, q2, q3, q4, q5⟩ := h
+  rcases a with ⟨ai, anow, adue, astale, als, alr, ast⟩
+  simp only at q1 q2 q3 q4 q5
+  subst q2
+  cases adue with
+  | none =>
+    cases c <;> refine ⟨?_, ?_, ?_, ?_, ?_⟩ <;> simp_all [Spec.call, armedAt] <;> grind
+  | some t =>
+    obtain ⟨q6, q7, q8, ts, q9⟩ := q5 t rfl
+    subst q8 q9
+    cases c <;> refine ⟨?_, ?_, ?_, ?_, ?_⟩ <;> simp_all [Spec.call, Spec.out2, armedAt] <;> grind
+
+/-- … and so do calls made back to back. -/
+private theorem pinv_calls : ∀ (cs : List Call) (a : Spec), PInv a → PInv (a.calls cs) := by
+  intro cs a
+  fun_induction Spec.calls a cs with
+  | case1 a => exact id
+  | case2 a rest ih => exact ih
+  | case3 a c rest _ ih => exact fun h => ih (pinv_call a c h)
+
+private theorem pinv_step (a : Spec) (op : Op) (h : PInv a) (hb : a.breaks op = false) :
+    PInv (a.step op).1 ∧ ∀ e ∈ a.eventsOf (a.step op).2, GoodEvent e := by
+  obtain ⟨q1, q2, q3, q4, q5⟩ := h
+  rcases a with ⟨ai, anow, adue, astale, als, alr, ast⟩
+  simp only at q1 q2 q3 q4 q5
+  subst q2
+  cases adue with
+  | none =>
+    cases op with
+    | advThen d c =>
+      cases c <;> refine ⟨⟨?_, ?_, ?_, ?_, ?_⟩, ?_⟩ <;>
+      simp_all [Spec.step, Spec.call, Spec.eventsOf, GoodEvent, armedAt] <;> grind
+    | burst2 c1 c2 => exact ⟨pinv_calls _ _ ⟨q1, rfl, q3, q4, q5⟩, by simp [Spec.step, Spec.eventsOf]⟩
+    | burst3 c1 c2 c3 => exact ⟨pinv_calls _ _ ⟨q1, rfl, q3, q4, q5⟩, by simp [Spec.step, Spec.eventsOf]⟩
+    | _ =>
+      refine ⟨⟨?_, ?_, ?_, ?_, ?_⟩, ?_⟩ <;>
+      simp_all [Spec.step, Spec.call, Spec.await, Spec.out2, Spec.eventsOf, GoodEvent, armedAt] <;> grind
+  | some t =>
+    have q := q5 t rfl
+    obtain ⟨q6, q7, q8, ts, q9⟩ := q
+    subst q8 q9
+    cases op with
+    | advThen d c =>
+      cases c <;> refine ⟨⟨?_, ?_, ?_, ?_, ?_⟩, ?_⟩ <;>
+      simp_all [Spec.step, Spec.call, Spec.out2, Spec.eventsOf, GoodEvent, armedAt, Spec.breaks, Spec.breaksAt] <;> grind
+    | burst2 c1 c2 => exact ⟨pinv_calls _ _ ⟨q1, rfl, q3, q4, q5⟩, by simp [Spec.step, Spec.eventsOf]⟩
+    | burst3 c1 c2 c3 => exact ⟨pinv_calls _ _ ⟨q1, rfl, q3, q4, q5⟩, by simp [Spec.step, Spec.eventsOf]⟩
+    | _ =>
+      refine ⟨⟨?_, ?_, ?_, ?_, ?_⟩, ?_⟩ <;>
+      simp_all [Spec.step, Spec.call, Spec.await, Spec.out2, Spec.eventsOf, GoodEvent, armedAt, Spec.breaks, Spec.breaksAt] <;> grind
+
+private theorem keeps_good : ∀ (ops : List Op) (a : Spec), PInv a → keeps a ops = true →
+    ∀ e ∈ (a.run ops).2, GoodEvent e := by
   intro ops
   induction ops with
-  | nil => intro s s' evs _ hr; simp [run] at hr; obtain ⟨_, rfl⟩ := hr; simp
+  | nil => intro a _ _ e he; simp [Spec.run] at he
   | cons op ops ih =>
-    intro s s' evs hinv hr
-    unfold run at hr
-    cases hst : step true s op with
-    | none => simp [hst] at hr
-    | some p =>
-      obtain ⟨s1, o⟩ := p
-      simp only [hst] at hr
-      have hstep := inv_step s s1 op o hinv hst
-      cases hrun : run true s1 ops with
-      | none => simp [hrun] at hr
-      | some q =>
-        obtain ⟨s2, evs2⟩ := q
-        simp only [hrun] at hr
-        simp at hr
-        obtain ⟨_, rfl⟩ := hr
-        intro e he
-        simp only [List.mem_append] at he
-        rcases he with he | he
-        · cases o with
-          | none => simp at he
-          | some ob =>
-            simp at he; subst he
-            have hg := hstep.2 ob rfl
-            intro v t hvt
-            simp only at hvt; subst hvt
-            simpa [GoodObs] using hg
-        · exact ih s1 s2 evs2 hstep.1 hrun e he
+    intro a h hk e he
+    simp only [keeps, Bool.and_eq_true, Bool.not_eq_true'] at hk
+    have hs := pinv_step a op h hk.1
+    simp only [Spec.run, List.mem_append] at he
+    rcases he with he | he
+    · exact hs.2 e he
+    · exact ih (a.step op).1 hs.1 hk.2 e he
 
-private theorem run_inv : ∀ (ops : List Op) (s s' : State) (evs : List Event), Inv s →
-    run true s ops = some (s', evs) → Inv s' := by
-  intro ops
-  induction ops with
-  | nil => intro s s' evs h hr; simp [run] at hr; obtain ⟨rfl, _⟩ := hr; exact h
-  | cons op ops ih =>
-    intro s s' evs hinv hr
-    unfold run at hr
-    cases hst : step true s op with
-    | none => simp [hst] at hr
-    | some p =>
-      obtain ⟨s1, o⟩ := p
-      simp only [hst] at hr
-      have hstep := inv_step s s1 op o hinv hst
-      cases hrun : run true s1 ops with
-      | none => simp [hrun] at hr
-      | some q =>
-        obtain ⟨s2, evs2⟩ := q
-        simp only [hrun] at hr
-        simp at hr
-        obtain ⟨rfl, _⟩ := hr
-        exact ih s1 s2 evs2 hstep.1 hrun
+private theorem pinv_init (i : Nat) (hi : 0 < i) : PInv (Spec.init i) := by
+  constructor <;> simp [Spec.init]; exact hi
 
-/-! ### property theorems -/
+private theorem run_good (i : Nat) (hi : 0 < i) (ops : List Op) (s : State) (evs : List Event)
+    (hrun : run true (init i) ops = some (s, evs)) : ∀ e ∈ evs, GoodEvent e := by
+  rw [← rep_init] at hrun
+  have h := run_rep ops (Spec.init i) false s evs (sinv_init i) (by simp [Spec.init]) hrun
+  intro e he
+  rw [h.2] at he
+  exact keeps_good ops (Spec.init i) (pinv_init i hi) h.1 e he
 
-/-- **No early tick.** In every operation history over {start, reset, stop, advance, await}
-that satisfies the precondition (`run` succeeds), for every interval `i > 0`: a tick observed
-at clock `t` satisfies `t ≥ max(lastStart, lastReset) + i`, where `lastStart` / `lastReset` are
-the times of the last `start` / `reset` calls before that await. The Instant `v` the tick
-carries obeys the same bound (the tick was *generated* no earlier than that, not merely
-received late). -/
+
+/-! ### property theorems (safety): corollaries of the refinement -/
+
+/-- **No early tick.** In every operation history that satisfies the precondition (`run` succeeds), for
+every interval `i > 0`: a tick observed at clock `t` satisfies `t ≥ max(lastStart, lastReset) + i`, where
+`lastStart` / `lastReset` are the times of the last `start` / `reset` calls before that await. The
+Instant `v` the tick carries obeys the same bound (the tick was *generated* no earlier than that, not
+merely received late). -/
 theorem no_early_tick (i : Nat) (hi : 0 < i) (ops : List Op) (s : State) (evs : List Event)
     (hrun : run true (init i) ops = some (s, evs)) :
     ∀ e ∈ evs, ∀ v t, e.obs = .tick v t →
       armedAt e.lastStart e.lastReset + e.interval ≤ t ∧
       armedAt e.lastStart e.lastReset + e.interval ≤ v ∧ v ≤ t := by
   intro e he v t hvt
-  have := run_good ops (init i) s evs (inv_init i hi) hrun e he v t hvt
+  have := run_good i hi ops s evs hrun e he v t hvt
   omega
 
 /-- **No tick after stop.** Under the same hypotheses: when a tick is observed, the last of the
 `start` / `stop_and_reset` calls before it was a `start` (`stopped = false`; initially the timer
 counts as stopped), and a full interval has elapsed since that start. Hence after a stop no
-await observes a tick limit the timer has been started again and one interval has passed. -/
+await observes a tick until the timer has been started again and one interval has passed. -/
 theorem no_tick_after_stop (i : Nat) (hi : 0 < i) (ops : List Op) (s : State) (evs : List Event)
     (hrun : run true (init i) ops = some (s, evs)) :
     ∀ e ∈ evs, ∀ v t, e.obs = .tick v t →
       e.stopped = false ∧ ∃ ts, e.lastStart = some ts ∧ ts + e.interval ≤ t := by
   intro e he v t hvt
-  have h := run_good ops (init i) s evs (inv_init i hi) hrun e he v t hvt
+  have h := run_good i hi ops s evs hrun e he v t hvt
   obtain ⟨h1, h2, h3, ts, h4⟩ := h
   refine ⟨h3, ts, h4, ?_⟩
   simp only [armedAt, h4, Option.getD_some] at h1
   omega
 
-private theorem advance_interval {s s' : State} {d : Nat} (h : advance s d = some s') :
-    s'.interval = s.interval := by
-  unfold advance at h
-  split at h
-  · simp at h; subst h; rfl
-  · split at h
-    · simp at h; subst h; rfl
-    · split at h
-      · simp at h
-      · split at h
-        · simp at h
-        · simp at h; subst h; rfl
-
-private theorem await_interval (s : State) (d : Nat) : (await s d).1.interval = s.interval := by
-  unfold await
-  split
-  · rfl
-  · split
-    · split
-      · rfl
-      · split <;> rfl
-    · rfl
+private theorem stepT_interval (drain : Bool) (s : State) (op : Op) : (stepT drain s op).1.interval = s.interval := by
+  cases op with
+  | advThen d c =>
+    cases c <;> simp [stepT, call, callStart, callStop, callReset, clock, settle, pollLoop] <;> grind
+  | burst2 c1 c2 =>
+    cases c1 <;> cases c2 <;> simp [stepT, call, callStart, callStop, callReset, settle, pollLoop] <;> grind
+  | burst3 c1 c2 c3 =>
+    cases c1 <;> cases c2 <;> cases c3 <;> simp [stepT, call, callStart, callStop, callReset, settle, pollLoop] <;> grind
+  | _ => simp [stepT, callStart, callStop, callReset, clock, settle, pollLoop, Timer.await] <;> grind
 
 /-- The `interval` recorded in an event is the timer's: the bound above is about `i`. -/
 theorem event_interval (i : Nat) (drain : Bool) : ∀ (ops : List Op) (s0 s : State) (evs : List Event),
@@ -307,42 +384,241 @@ theorem event_interval (i : Nat) (drain : Bool) : ∀ (ops : List Op) (s0 s : St
   | nil => intro s0 s evs h0 hr; simp [run] at hr; obtain ⟨rfl, rfl⟩ := hr; simp [h0]
   | cons op ops ih =>
     intro s0 s evs h0 hr
-    unfold run at hr
-    cases hst : step drain s0 op with
-    | none => simp [hst] at hr
-    | some p =>
-      obtain ⟨s1, o⟩ := p
-      simp only [hst] at hr
-      have h1 : s1.interval = i := by
-        cases op with
-        | start => simp [step, start] at hst; obtain ⟨rfl, _⟩ := hst; simpa using h0
-        | stop => simp [step, stop] at hst; obtain ⟨rfl, _⟩ := hst; simpa using h0
-        | reset =>
-          simp [step, reset] at hst; obtain ⟨rfl, _⟩ := hst
-          split <;> simpa using h0
-        | advance d =>
-          simp [step] at hst
-          obtain ⟨a, ha, rfl, _⟩ := hst
-          rw [advance_interval ha]; exact h0
-        | await d =>
-          simp [step] at hst; obtain ⟨rfl, _⟩ := hst
-          rw [await_interval]; exact h0
-      cases hrun : run drain s1 ops with
+    unfold run step at hr
+    cases hb : breaks s0 op with
+    | true => simp [hb] at hr
+    | false =>
+      simp only [hb] at hr
+      cases hrun : run drain (stepT drain s0 op).1 ops with
       | none => simp [hrun] at hr
       | some q =>
         obtain ⟨s2, evs2⟩ := q
-        simp only [hrun] at hr
-        simp at hr
+        simp [hrun] at hr
         obtain ⟨rfl, rfl⟩ := hr
-        have := ih s1 s2 evs2 h1 hrun
+        have := ih _ s2 evs2 (by rw [stepT_interval]; exact h0) hrun
         refine ⟨this.1, ?_⟩
         intro e he
         simp only [List.mem_append] at he
         rcases he with he | he
-        · cases o with
-          | none => simp at he
-          | some ob => simp at he; subst he; simpa using h0
+        · cases ho : (stepT drain s0 op).2 with
+          | none => simp [ho, eventsOf] at he
+          | some ob => simp [ho, eventsOf] at he; subst he; simpa using h0
         · exact this.2 e he
+
+/-- a history inside the precondition is observed the same by `run` and by the total `runT` -/
+theorem run_is_runT (drain : Bool) : ∀ (ops : List Op) (s0 s : State) (evs : List Event),
+    run drain s0 ops = some (s, evs) → runT drain s0 ops = (s, evs) := by
+  intro ops
+  induction ops with
+  | nil => intro s0 s evs hr; simp [run] at hr; simp [runT, hr]
+  | cons op ops ih =>
+    intro s0 s evs hr
+    unfold run step at hr
+    cases hb : breaks s0 op with
+    | true => simp [hb] at hr
+    | false =>
+      simp only [hb] at hr
+      cases hrun : run drain (stepT drain s0 op).1 ops with
+      | none => simp [hrun] at hr
+      | some q =>
+        obtain ⟨s2, evs2⟩ := q
+        simp [hrun] at hr
+        have := ih _ s2 evs2 hrun
+        simp [runT, this, hr]
+
+/-! ### liveness under the controlled clock -/
+
+/-- the timer has just been armed: its task waits for `now + interval`, nothing is queued -/
+def JustArmed (s : State) : Prop :=
+  0 < s.interval ∧ s.task = .waiting (s.now + s.interval) ∧ s.queue = none ∧ s.resetPending = false
+
+/-- `start` arms the timer whatever state it was in - running, blocked on a full channel, stopped:
+**start on a running timer re-arms** (the old task and its schedule are gone, what was queued is
+drained), and the later of last start / last reset is now. -/
+theorem start_rearms (s : State) (hi : 0 < s.interval) :
+    JustArmed (stepT true s .start).1 ∧ (stepT true s .start).1.now = s.now ∧
+    (stepT true s .start).1.lastStart = some s.now ∧ (stepT true s .start).1.stopped = false ∧
+    alive (stepT true s .start).1 = 1 := by
+  have : s.interval ≠ 0 := by omega
+  have h2 : ¬ (s.now + s.interval ≤ s.now) := by omega
+  simp [JustArmed, stepT, callStart, settle, pollLoop, alive, this, h2]
+  omega
+
+/-- `reset` of a running timer with at most one tick outstanding (the task is not blocked in `send`)
+arms it as well. -/
+theorem reset_rearms (s : State) (hi : 0 < s.interval) (he : s.everStarted = true) (next : Nat)
+    (ht : s.task = .waiting next) :
+    JustArmed (stepT true s .reset).1 ∧ (stepT true s .reset).1.now = s.now ∧
+    (stepT true s .reset).1.lastReset = some s.now := by
+  simp [JustArmed, stepT, callReset, settle, pollLoop, he, ht]
+  omega
+
+/-- **A tick exactly at the deadline.** The timer was armed at `T` (`JustArmed`; by `start_rearms` /
+`reset_rearms` that is the later of the last start and the last reset). The clock is advanced by `d`
+(less than two intervals: the precondition) and the tick is then awaited for longer than what is
+left of the interval: the await DOES observe a tick, the tick carries exactly `T + interval`, and it is
+observed at that very instant when the await began before it (`d < interval`), else at once. -/
+theorem tick_exactly_at_deadline (s : State) (h : JustArmed s) (d e : Nat) (hd : d < 2 * s.interval)
+    (he : s.interval < d + e) :
+    let s1 := (stepT true s (.advance d)).1
+    (stepT true s1 (.await e)).2 = some (.tick (s.now + s.interval) (max (s.now + s.interval) (s.now + d))) ∧
+    breaks s (.advance d) = false := by
+  obtain ⟨h0, h1, h2, h3⟩ := h
+  rcases s with ⟨i, now, task, queue, rp, es, ls, lr, st⟩
+  simp only at h0 h1 h2 h3 hd he
+  subst h1 h2 h3
+  by_cases hc : now + i ≤ now + d
+  · simp [stepT, clock, settle, pollLoop, Timer.await, breaks, breaksAt, hc]
+    grind
+  · simp [stepT, clock, settle, pollLoop, Timer.await, breaks, breaksAt, hc]
+    grind
+
+/-- an await longer than the interval on a just-armed timer: a tick exactly one interval later, and the
+timer is just-armed again at that instant -/
+private theorem await_justArmed (s : State) (h : JustArmed s) (e : Nat) (he : s.interval < e) :
+    (stepT true s (.await e)).2 = some (.tick (s.now + s.interval) (s.now + s.interval)) ∧
+    JustArmed (stepT true s (.await e)).1 ∧ (stepT true s (.await e)).1.now = s.now + s.interval ∧
+    (stepT true s (.await e)).1.interval = s.interval := by
+  obtain ⟨h0, h1, h2, h3⟩ := h
+  rcases s with ⟨i, now, task, queue, rp, es, ls, lr, st⟩
+  simp only at h0 h1 h2 h3 he
+  subst h1 h2 h3
+  have : now + i < now + e := by omega
+  simp [stepT, Timer.await, JustArmed, this]
+  omega
+
+/-- the observations of a run -/
+def obsOf (r : State × List Event) : List Obs := r.2.map (·.obs)
+
+/-- **Periodicity.** A timer armed at `T` that is only awaited (each await longer than the interval, no
+start / stop / reset in between) ticks at exactly `T + i, T + 2i, .., T + n·i`: the `k`-th tick carries
+`T + k·i` and is observed at that instant. -/
+theorem kth_tick_at_k_intervals (e : Nat) : ∀ (n : Nat) (s : State), JustArmed s → s.interval < e →
+    obsOf (runT true s (List.replicate n (.await e))) =
+      (List.range n).map (fun k => .tick (s.now + (k + 1) * s.interval) (s.now + (k + 1) * s.interval)) := by
+  intro n
+  induction n with
+  | zero => intro s _ _; simp [obsOf, runT]
+  | succ n ih =>
+    intro s h he
+    have ha := await_justArmed s h e he
+    have ih' := ih (stepT true s (.await e)).1 ha.2.1 (by rw [ha.2.2.2]; exact he)
+    simp only [List.replicate_succ, runT, obsOf, ha.1, eventsOf, List.map_cons, List.singleton_append]
+    simp only [obsOf] at ih'
+    rw [ih', List.range_succ_eq_map, List.map_cons, List.map_map, ha.2.2.1, ha.2.2.2]
+    simp only [Nat.zero_add, Nat.one_mul, List.cons.injEq, true_and]
+    apply List.map_congr_left
+    intro k _
+    simp only [Function.comp, Nat.succ_eq_add_one]
+    have : (k + 1 + 1) * s.interval = s.interval + (k + 1) * s.interval := by
+      rw [Nat.add_mul (k + 1) 1]; omega
+    rw [this]; simp only [Nat.add_assoc]
+
+/-- the hypotheses are satisfiable: five ticks, 8 s apart, after a restart at 3 s -/
+example : obsOf (runT true (init 8000) ([.start, .advance 3000, .start] ++ List.replicate 5 (.await 9000))) =
+    [.tick 11000 11000, .tick 19000 19000, .tick 27000 27000, .tick 35000 35000, .tick 43000 43000] := by decide
+
+/-! ### corner cases -/
+
+/-- the timer is silent: no task, nothing queued -/
+def Silent (s : State) : Prop := s.task = .dead ∧ s.queue = none
+
+/-- an operation that does not start the timer -/
+def notStart : Op → Bool
+  | .start => false
+  | .advThen _ .start => false
+  | .burst2 c1 c2 => c1 != .start && c2 != .start
+  | .burst3 c1 c2 c3 => c1 != .start && c2 != .start && c3 != .start
+  | _ => true
+
+private theorem silent_step (s : State) (op : Op) (h : Silent s) (hn : notStart op = true) :
+    Silent (stepT true s op).1 ∧ ∀ v t, (stepT true s op).2 ≠ some (.tick v t) := by
+  obtain ⟨h1, h2⟩ := h
+  cases op with
+  | advThen d c =>
+    cases c <;> simp_all [Silent, stepT, call, callStop, callReset, clock, settle, notStart] <;> grind
+  | burst2 c1 c2 =>
+    cases c1 <;> cases c2 <;> simp_all [Silent, stepT, call, callStop, callReset, settle, notStart] <;> grind
+  | burst3 c1 c2 c3 =>
+    cases c1 <;> cases c2 <;> cases c3 <;> simp_all [Silent, stepT, call, callStop, callReset, settle, notStart] <;> grind
+  | _ => simp_all [Silent, stepT, callStop, callReset, clock, settle, Timer.await, notStart] <;> grind
+
+/-- **`reset` on a stopped timer does not arm it** (it only logs a warning), and more generally a timer
+that is not running - never started, or stopped - stays silent under every history without a `start`:
+resets, stops, advances and awaits observe no tick. -/
+theorem silent_until_start : ∀ (ops : List Op) (s : State), Silent s → ops.all notStart = true →
+    ∀ e ∈ (runT true s ops).2, ∀ v t, e.obs ≠ .tick v t := by
+  intro ops
+  induction ops with
+  | nil => intro s _ _ e he; simp [runT] at he
+  | cons op ops ih =>
+    intro s h hn e he
+    simp only [List.all_cons, Bool.and_eq_true] at hn
+    have hs := silent_step s op h hn.1
+    simp only [runT, List.mem_append] at he
+    rcases he with he | he
+    · cases ho : (stepT true s op).2 with
+      | none => simp [ho, eventsOf] at he
+      | some ob =>
+        simp [ho, eventsOf] at he; subst he
+        intro v t hvt; simp only at hvt; subst hvt
+        exact hs.2 v t ho
+    · exact ih _ hs.1 hn.2 e he
+
+/-- `stop_and_reset` leaves the timer silent, in every state (running, blocked, already stopped) … -/
+theorem stop_silences (s : State) : Silent (stepT true s .stop).1 ∧ (stepT true s .stop).1.stopped = true ∧
+    alive (stepT true s .stop).1 = 0 := by
+  simp [Silent, stepT, callStop, settle, alive]
+
+/-- … and **stopping twice is stopping once** (the second call only logs a warning). -/
+theorem stop_twice (s : State) : (stepT true (stepT true s .stop).1 .stop).1 = (stepT true s .stop).1 := by
+  simp [stepT, callStop, settle]
+
+/-- `reset` of a timer that is not running changes nothing but the ghost "time of the last reset". -/
+theorem reset_stopped_noop (s : State) (h : Silent s) (hr : s.resetPending = false) :
+    (stepT true s .reset).1 = { s with lastReset := some s.now } := by
+  obtain ⟨h1, h2⟩ := h
+  rcases s with ⟨i, now, task, queue, rp, es, ls, lr, st⟩
+  simp only at h1 h2 hr
+  subst h1 h2 hr
+  cases es <;> simp [stepT, callReset, settle]
+
+/-- **Interval 0 never ticks.** `Session::new` creates such timers (keepalive for hold times 0..2, all of
+them for hold time 0). `start` spawns a task that panics in `tokio::time::interval(0)`; `is_running()` is
+true, no tick is ever observed, in any history. -/
+theorem interval_zero_never_ticks (ops : List Op) :
+    ∀ e ∈ (runT true (init 0) ops).2, ∀ v t, e.obs ≠ .tick v t := by
+  have h := (timer_refines_spec 0 ops).1
+  rw [h]
+  -- on the specification: with i = 0 nothing is ever due
+  have key : ∀ (ops : List Op) (a : Spec), a.i = 0 → a.due = none → a.stale = none →
+      ∀ e ∈ (a.run ops).2, ∀ v t, e.obs ≠ .tick v t := by
+    intro ops
+    induction ops with
+    | nil => intro a _ _ _ e he; simp [Spec.run] at he
+    | cons op ops ih =>
+      intro a h0 h1 h2 e he
+      rcases a with ⟨ai, anow, adue, astale, als, alr, ast⟩
+      simp only at h0 h1 h2
+      subst h0 h1 h2
+      simp only [Spec.run, List.mem_append] at he
+      rcases he with he | he
+      · cases op with
+        | advThen d c => cases c <;> simp [Spec.step, Spec.eventsOf] at he
+        | burst2 c1 c2 => simp [Spec.step, Spec.eventsOf] at he
+        | burst3 c1 c2 c3 => simp [Spec.step, Spec.eventsOf] at he
+        | _ => simp [Spec.step, Spec.eventsOf, Spec.await] at he <;> (subst he; simp)
+      · refine ih _ ?_ ?_ ?_ e he <;>
+        (cases op with
+         | advThen d c => cases c <;> simp [Spec.step, Spec.call]
+         | burst2 c1 c2 => cases c1 <;> cases c2 <;> simp [Spec.step, Spec.call, Spec.calls]
+         | burst3 c1 c2 c3 => cases c1 <;> cases c2 <;> cases c3 <;> simp [Spec.step, Spec.call, Spec.calls]
+         | _ => simp [Spec.step, Spec.call, Spec.await])
+  exact key ops (Spec.init 0) rfl rfl rfl
+
+/-- … while `is_running()` says yes: `start; probe` on an interval-0 timer. -/
+example : spec 0 [.start, .probe, .advance 5000, .await 5000, .probe] =
+    [.probe true false 0, .timeout 10000, .probe true false 0] := by decide
 
 /-! ### non-vacuity, and the defect F17 as a theorem about the unrepaired model -/
 
